@@ -84,8 +84,7 @@ package sourcebundle
 
 //@ func buildTraceFromContext -> (r)
 //@   pure
-//@   ensures C14.trace.nonnil: r != nil
-//@   defines def.tracer-set: r.RegistryPackageVersionsStart != nil && r.RegistryPackageVersionsSuccess != nil && r.RegistryPackageVersionsFailure != nil && r.RegistryPackageVersionsAlready != nil
+//@   defines def.tracer-set: r != nil && r.RegistryPackageVersionsStart != nil && r.RegistryPackageVersionsSuccess != nil && r.RegistryPackageVersionsFailure != nil && r.RegistryPackageVersionsAlready != nil
 //@       && r.RegistryPackageSourceStart != nil && r.RegistryPackageSourceSuccess != nil && r.RegistryPackageSourceFailure != nil && r.RegistryPackageSourceAlready != nil
 //@       && r.RemotePackageDownloadStart != nil && r.RemotePackageDownloadSuccess != nil && r.RemotePackageDownloadFailure != nil && r.RemotePackageDownloadAlready != nil && r.Diagnostics != nil
 
